@@ -60,6 +60,7 @@ struct Ctx {
     std::vector<CallRec> calls;
     std::map<const void*, std::set<int>> kernelWorkers;
     long callbacks = 0;
+    int guardDepth = 0;
     long argchecks = 0;
     size_t maxViol = 64;
 
@@ -105,8 +106,14 @@ inline void headerFields(const Header& h, long& spaceIndex, Coord& coord) {
 
 // ---------------------------------------------------------------------------------------------
 // Probe<Inner>: records, validates and forwards every kernel callback; yields before and after.
-template <class Inner>
+template <class Inner, bool Guard = false>
 class Probe : public Inner {
+    // Guard = true: argument validation only (no recording, no yields); used INSIDE a wrapper kernel such as the
+    // interaction counter, so that what the wrapper forwards to the wrapped kernel is validated too
+    void begin(Ctx& c, int op, long level, long n) { if (Guard) c.guardDepth += 1; else c.enter(op, level, this, n); }
+    void checked(Ctx& c) { if (Guard) c.guardDepth -= 1; }
+    void end(Ctx& c) { if (!Guard) c.leave(); }
+
     template <class Hdr, class DataArr>
     static LeafArgs leafArgs(const Hdr& hdr, const long* idx, const DataArr& data, long n) {
         LeafArgs a;
@@ -131,13 +138,14 @@ public:
     void P2M(const CellSymbolicData& symb, const long int idx[], const ParticlesClass& data, const long int n, LeafClass& leaf) {
         NoCount noCount;
         Ctx& c = *g_ctx;
-        c.enter(OP_P2M, -1, this, n);
+        begin(c, OP_P2M, -1, n);
         long si; Coord sc; headerFields(symb, si, sc);
         LeafArgs la = leafArgs(symb, idx, data, n);
         la.hdr = nullptr;   // P2M/L2P receive the *cell* header, not the particle-leaf header
         c.onP2M(&symb, si, sc, la, &leaf, sizeof(LeafClass));
+        checked(c);
         Inner::P2M(symb, idx, data, n, leaf);
-        c.leave();
+        end(c);
     }
 
     template <class CellSymbolicData, class CellClassContainer, class CellClass>
@@ -145,13 +153,14 @@ public:
              const long int pos[], const long int n) {
         NoCount noCount;
         Ctx& c = *g_ctx;
-        c.enter(OP_M2M, level, this, n);
+        begin(c, OP_M2M, level, n);
         long si; Coord sc; headerFields(symb, si, sc);
         std::vector<const void*> ch;
         for (long k = 0; k < n && k < long(lower.size()); ++k) ch.push_back(&lower[size_t(k)].get());
         c.onM2M(&symb, si, sc, level, ch, pos, n, &upper, sizeof(CellClass));
+        checked(c);
         Inner::M2M(symb, level, lower, upper, pos, n);
-        c.leave();
+        end(c);
     }
 
     template <class CellSymbolicData, class CellClassContainer, class CellClass>
@@ -159,14 +168,15 @@ public:
              const long int n, CellClass& target) {
         NoCount noCount;
         Ctx& c = *g_ctx;
-        c.enter(OP_M2L, level, this, n);
+        begin(c, OP_M2L, level, n);
         long si; Coord sc; headerFields(symb, si, sc);
         std::vector<const void*> sv;
         for (long k = 0; k < n && k < long(srcs.size()); ++k) sv.push_back(&srcs[size_t(k)].get());
         using SrcType = typename std::decay<decltype(srcs[0].get())>::type;
         c.onM2L(&symb, si, sc, level, sv, pos, n, &target, sizeof(SrcType), sizeof(CellClass));
+        checked(c);
         Inner::M2L(symb, level, srcs, pos, n, target);
-        c.leave();
+        end(c);
     }
 
     template <class CellSymbolicData, class CellClass, class CellClassContainer>
@@ -174,13 +184,14 @@ public:
              const long int pos[], const long int n) {
         NoCount noCount;
         Ctx& c = *g_ctx;
-        c.enter(OP_L2L, level, this, n);
+        begin(c, OP_L2L, level, n);
         long si; Coord sc; headerFields(symb, si, sc);
         std::vector<const void*> ch;
         for (long k = 0; k < n && k < long(lower.size()); ++k) ch.push_back(&lower[size_t(k)].get());
         c.onL2L(&symb, si, sc, level, &upper, ch, pos, n, sizeof(CellClass));
+        checked(c);
         Inner::L2L(symb, level, upper, lower, pos, n);
-        c.leave();
+        end(c);
     }
 
     template <class CellSymbolicData, class LeafClass, class ParticlesClassValues, class ParticlesClassRhs>
@@ -188,14 +199,15 @@ public:
              ParticlesClassRhs& rhs, const long int n) {
         NoCount noCount;
         Ctx& c = *g_ctx;
-        c.enter(OP_L2P, -1, this, n);
+        begin(c, OP_L2P, -1, n);
         long si; Coord sc; headerFields(symb, si, sc);
         LeafArgs la = leafArgs(symb, idx, data, n);
         la.hdr = nullptr;
         addRhs(la, rhs);
         c.onL2P(&symb, si, sc, &leaf, sizeof(LeafClass), la);
+        checked(c);
         Inner::L2P(symb, leaf, idx, data, rhs, n);
-        c.leave();
+        end(c);
     }
 
     template <class LeafSymbolicData, class ParticlesClassValues, class ParticlesClassRhs>
@@ -204,12 +216,13 @@ public:
              ParticlesClassRhs& tgtRhs, const long int nTgt, const long code) {
         NoCount noCount;
         Ctx& c = *g_ctx;
-        c.enter(OP_P2P, -1, this, nSrc * nTgt);
+        begin(c, OP_P2P, -1, nSrc * nTgt);
         LeafArgs s = leafArgs(srcHdr, srcIdx, srcData, nSrc); s.hdrNb = long(srcHdr.nbParticles); addRhs(s, srcRhs);
         LeafArgs t = leafArgs(tgtHdr, tgtIdx, tgtData, nTgt); t.hdrNb = long(tgtHdr.nbParticles); addRhs(t, tgtRhs);
         c.onP2P(OP_P2P, s, t, code);
+        checked(c);
         Inner::P2P(srcHdr, srcIdx, srcData, srcRhs, nSrc, tgtHdr, tgtIdx, tgtData, tgtRhs, nTgt, code);
-        c.leave();
+        end(c);
     }
 
     template <class LeafSymbolicDataSource, class ParticlesClassValuesSource, class LeafSymbolicDataTarget,
@@ -219,12 +232,13 @@ public:
                 const ParticlesClassValuesTarget& tgtData, ParticlesClassRhs& tgtRhs, const long int nTgt, const long code) {
         NoCount noCount;
         Ctx& c = *g_ctx;
-        c.enter(OP_P2PTSM, -1, this, nSrc * nTgt);
+        begin(c, OP_P2PTSM, -1, nSrc * nTgt);
         LeafArgs s = leafArgs(srcHdr, srcIdx, srcData, nSrc); s.hdrNb = long(srcHdr.nbParticles);
         LeafArgs t = leafArgs(tgtHdr, tgtIdx, tgtData, nTgt); t.hdrNb = long(tgtHdr.nbParticles); addRhs(t, tgtRhs);
         c.onP2P(OP_P2PTSM, s, t, code);
+        checked(c);
         Inner::P2PTsm(srcHdr, srcIdx, srcData, nSrc, tgtHdr, tgtIdx, tgtData, tgtRhs, nTgt, code);
-        c.leave();
+        end(c);
     }
 
     template <class LeafSymbolicData, class ParticlesClassValues, class ParticlesClassRhs>
@@ -232,11 +246,12 @@ public:
                   const long int n) {
         NoCount noCount;
         Ctx& c = *g_ctx;
-        c.enter(OP_P2PINNER, -1, this, n * n - n);
+        begin(c, OP_P2PINNER, -1, n * n - n);
         LeafArgs l = leafArgs(hdr, idx, data, n); l.hdrNb = long(hdr.nbParticles); addRhs(l, rhs);
         c.onP2PInner(l);
+        checked(c);
         Inner::P2PInner(hdr, idx, data, rhs, n);
-        c.leave();
+        end(c);
     }
 };
 
